@@ -200,6 +200,9 @@ theorem sim_self (canon : Name → Cls) (i : Nat) (σ τ : State)
       | emit v =>
         have : n ∈ freeGets t.prog := by rw [hp]; exact mem_freeGets_of_tail hn (by simp)
         exact hfree n this
+      | fetch p c =>
+        have : n ∈ freeGets t.prog := by rw [hp]; exact mem_freeGets_of_tail hn (by simp)
+        exact hfree n this
     · intro t' ht'
       have hset : (step .Local i σ).threads =
           σ.threads.set i (exec .Local e { t with prog := rest } σ.sh).1 := by
@@ -435,6 +438,12 @@ theorem runEvents_global_thread (es : List Ev) (t : Thread) (s s' : Shared)
       simp only [runEvents, exec]
       apply ih _ _ _ hc
       intro n' hn'; exact hr n' (by simpa [freeGets] using hn')
+    | fetch p c =>
+      simp only [runEvents, exec]
+      rw [hc]
+      apply ih
+      · rfl
+      · intro n' hn'; exact hr n' (by simpa [freeGets] using hn')
 
 theorem seqScheduleFrom_ge (k : Nat) (progs : List (List Ev)) :
     ∀ x ∈ seqScheduleFrom k progs, k ≤ x := by
@@ -545,6 +554,7 @@ theorem runEvents_global_thread_reset (es : List Ev) (t : Thread) (s s' : Shared
       · rfl
       · intro n' hn'; exact hr n' (by simpa [freeGets] using hn')
     | lookup c => simp [opensWithReset] at ho
+    | fetch p c => simp [opensWithReset] at ho
     | clearCtx =>
       simp only [runEvents, exec]
       apply runEvents_global_thread
@@ -607,5 +617,25 @@ theorem seq_global_reset_aux (r₀' : Registry) (progs : List (List Ev)) :
         i p (by simpa using hp)
       rw [show k + (i + 1) = k + 1 + i by omega]
       exact this
+
+/-! ## a memo kept on an object (`objMemoProg`) -/
+
+theorem freeGets_replicate_fetch (p : Palette) (c : Color) (n : Nat) :
+    freeGets (List.replicate n (Ev.fetch p c)) = [] := by
+  induction n with
+  | zero => rfl
+  | succ k ih => simp [List.replicate_succ, freeGets, ih]
+
+theorem freeGets_objMemoProg (p : Palette) (c : Color) (n : Nat) :
+    freeGets (objMemoProg p c n) = [] := by
+  simp [objMemoProg, freeGets, freeGets_replicate_fetch]
+
+theorem opensWithReset_objMemoProg (p : Palette) (c : Color) (n : Nat) :
+    opensWithReset (objMemoProg p c n) = true := by
+  simp [objMemoProg, opensWithReset]
+
+theorem canonicalB_objMemoProg (canon : Name → Cls) (p : Palette) (c : Color) (n : Nat) :
+    canonicalB canon (objMemoProg p c n) = true := by
+  simp [objMemoProg, canonicalB]
 
 end Proofs.Interleave
